@@ -68,9 +68,13 @@ PROPS = {
  "C05": (False, "proof", T_C + BOUNDED, "", "", "7/C05"),
  "C08": (False, "other", T_P + BOUNDED, "", "", "7/C08"),
  "C14": (False, "proof", T_P + BOUNDED, "", "", "7/C14"),
- "C15": (False, "exploration", "bounded stand-in", "", "", "7/C15"),
+ "C15": (True, "exploration", "bounded run-time contract stand-in (iter_rt), crash-isolated in child processes",
+         "Bounded only: interleavings of <= 4 iterator steps / index reads with <= 4 mutations on 8-key trees at node sizes 2/2, 3/2, all kinds, both implementations.",
+         "M-ITER obligations (memory safety under interference) not discharged yet", "7/C15"),
  "C16": (False, "exploration", "bounded stand-in", "", "", "7/C16"),
- "C17": (False, "exploration", "bounded stand-in", "", "", "7/C17"),
+ "C17": (True, "fault_enumeration", "bounded fault enumeration through the guarded allocation-failure hook (alloc_rt); every faulted call in its own process",
+         "Bounded, exhaustive over the stated scenarios: for every allocating operation and every n the n-th wrapped allocation fails; MemoryError, soundness, contents previous-or-completed, follow-up workload.",
+         "allocations made by CPython itself are outside the hook; M-ALLOC obligations not discharged yet; recorded findings for &= and setstate", "7/C17"),
 }
 
 
